@@ -329,3 +329,76 @@ def ref_eval_all(case, vals):
             return None
         out.append(float(v))
     return out
+
+
+def enum_cases(rng, points=3):
+    """thorough tier: every operator x operand form at depth <= 2 (exhaustive over the alphabet
+    of operators and forms; `points` in-domain sample points each)"""
+    out = []
+    forms = ["qq", "qq_same", "qn", "nq", "qp", "pq"]
+    for op in UN + DEG:
+        for outer in [None, "neg", "sin"]:
+            got = 0
+            for _ in range(200):
+                if got >= points:
+                    break
+                v = rng.choice([1, -1]) * 10 ** rng.uniform(-1.2, 1.2)
+                e = abs(v) * 10 ** rng.uniform(-4, -1)
+                nodes = [["var", 0]]
+                if op in DEG:
+                    inner = {"sind": "sin", "cosd": "cos", "tand": "tan", "secd": "sec",
+                             "cscd": "csc", "cotd": "cot"}[op]
+                    r = ref_un(inner, v / 180 * math.pi)
+                    nodes.append(["deg", op, 0])
+                else:
+                    r = ref_un(op, v)
+                    nodes.append(["un", op, 0])
+                if r is None:
+                    continue
+                if outer:
+                    r = ref_un(outer, r)
+                    if r is None:
+                        continue
+                    nodes.append(["un", outer, 1])
+                out.append({"nodes": nodes, "root": len(nodes) - 1, "vals": [bits(v)],
+                            "errs": [bits(e)], "rho": [], "n_meas": 1, "raw": {}, "revise": {},
+                            "ops": [op] + ([outer] if outer else []), "ref_value": bits(r)})
+                got += 1
+    for op in BIN:
+        for form in forms:
+            got = 0
+            for _ in range(400):
+                if got >= points:
+                    break
+                a = rng.choice([1, -1]) * 10 ** rng.uniform(-1, 1)
+                b = rng.choice([1, -1]) * 10 ** rng.uniform(-1, 1)
+                if op == "pow" and form in ("qn",) and rng.random() < 0.5:
+                    b = float(rng.choice([2, 3, -1, -2]))
+                ea, eb = abs(a) * 10 ** rng.uniform(-4, -1), abs(b) * 10 ** rng.uniform(-4, -1)
+                vals, errs = [a], [ea]
+                nodes = [["var", 0]]
+                if form == "qq":
+                    vals.append(b); errs.append(eb); nodes.append(["var", 1]); x, y = 0, 1
+                elif form == "qq_same":
+                    b = a; x, y = 0, 0
+                elif form in ("qn", "nq"):
+                    nodes.append(["const", bits(b)])
+                    x, y = (0, 1) if form == "qn" else (1, 0)
+                else:
+                    vals.append(b); errs.append(eb); nodes.append(["pair", 1])
+                    x, y = (0, 1) if form == "qp" else (1, 0)
+                xv = a if x == 0 else b
+                yv = a if y == 0 else b
+                if form == "qq_same":
+                    xv = yv = a
+                r = ref_bin(op, xv, yv, b_is_const=(nodes[y][0] == "const"))
+                if r is None or abs(r) > 1e8:
+                    continue
+                nodes.append(["bin", op, x, y])
+                n_meas = 2 if form == "qq" else 1
+                rho = [[0, 1, bits(rng.uniform(-1, 1))]] if form == "qq" and rng.random() < 0.5 else []
+                out.append({"nodes": nodes, "root": len(nodes) - 1, "vals": [bits(v) for v in vals],
+                            "errs": [bits(e) for e in errs], "rho": rho, "n_meas": n_meas, "raw": {},
+                            "revise": {}, "ops": [op], "ref_value": bits(r)})
+                got += 1
+    return out
